@@ -22,7 +22,7 @@ CHECKS = {
             "DESIGN.md §4 C18"),
     "C07": ("fault_enumeration", E1,
             "enumeration of (base state x transaction body x failure kind x failure position x route) on the real Db.Update/Batch path with storage-write fault points in bbolt and joined goroutines",
-            "From every base state of a short kitchen-sink exploration (quick: depth <= 1 for all bodies, depth 2 for the bodies made of one delete), every single operation and all pairs (thorough: sampled triples) over a core alphabet are run with every failure kind at every position: caller error before each operation and after the last, operation rejected by the reference model (duplicate, missing target, restrict, unusable key), constraint veto for each of 6 stores x 3 change types, a failing pre-commit action alone / before / after / between succeeding ones / registering further actions / registered on the context before the call, and storage write k of N failing for EVERY k (fault points inserted into bbolt's write methods by the overlay); through Db.Update, nested Db.Update and Db.Batch. The failing store call and the transaction must return an error, the database must be byte-identical, and no listener, post-commit hook, commit action or tx-complete listener may run (all library goroutines are joined, no sleeps).",
+            "From every base state of a short kitchen-sink exploration (quick: depth <= 1 for all bodies, depth 2 for the bodies made of one delete), every single operation and all pairs (thorough: sampled triples) over a core alphabet are run with every failure kind at every position: caller error before each operation and after the last, operation rejected by the reference model (duplicate, missing target, restrict, unusable key), constraint veto for each of 6 stores x 3 change types, a failing pre-commit action alone / before / after / between succeeding ones / registering further actions / registered on the context before the call, and storage write k of N failing for EVERY k (fault points inserted into bbolt's write methods by the overlay); through Db.Update, nested Db.Update and Db.Batch; operations refused by input validation (blank id, wrong entity type, nil entity) are part of the alphabet. The failing store call and the transaction must return an error, the database must be byte-identical, and no listener, post-commit hook, commit action or tx-complete listener may run (all library goroutines are joined, no sleeps).",
             "Storage faults are injected at bbolt's Put/Delete/CreateBucket(IfNotExists)/DeleteBucket entry (pages/fsync are not modelled); Batch is sampled (10 ms per call); single caller.",
             "DESIGN.md §4 C07"),
     "C08": ("model_checking", E1,
@@ -37,7 +37,7 @@ CHECKS = {
             "DESIGN.md §4 C09"),
     "C13": ("exploration", E2,
             "bounded-exhaustive enumeration of values, value trees, field-checker subsets and compound-key lists; write in one committed transaction, read back in a later one",
-            "Every typed setter/getter pair over boundary values (integer extremes, signed zero, infinities, NaN, denormals, NUL-containing and 64 KiB strings, times in several zones incl. year 1/9999), all string lists up to 3 over {\"\",a,b,dup}, every such list written over every list of length <= 2 (committed before or earlier in the same transaction, both list setters), ALL value trees up to depth 2 (thorough: 3) over 8 leaf kinds with up to 2 children (nulls, empty maps/lists inside containers), all 16 field-checker subsets (untouched fields byte-identical), all 32 selections under a MappedFieldChecker, and all compound-key lists up to 3 over 8 element shapes with an exhaustive collision table.",
+            "Every typed setter/getter pair over boundary values (integer extremes, signed zero, infinities, NaN, denormals, NUL-containing and 64 KiB strings, times in several zones incl. year 1/9999), all string lists up to 3 over {\"\",a,b,dup}, every such list written over every list of length <= 2 (committed before or earlier in the same transaction, both list setters), ALL value trees up to depth 2 (thorough: 3) over 8 leaf kinds with up to 2 children (nulls, empty maps/lists inside containers), all 16 field-checker subsets (untouched fields byte-identical), all 32 selections under a MappedFieldChecker, and all compound-key lists up to 3 over 8 element shapes with an exhaustive collision table. Every PersistContext setter under all 1024 selections of a 10-field checker (and none), required-but-empty strings refused without a write.",
             "The reserved list-size key and empty map keys (rejected loudly by bbolt) are outside the alphabet.",
             "DESIGN.md §4 C13"),
     "C14": ("exploration", E2,
@@ -92,7 +92,7 @@ CHECKS = {
             "DESIGN.md §4 C04"),
     "C05": ("model_checking", E1,
             "explicit-state BFS to closure over link / ref-counted link operations from both sides + exhaustive (current set x requested list) enumeration for SetLinks",
-            "All reachable link states (symmetric and ref-counted) are enumerated to closure with every operation issued from either side (collection API, and the entity-level route Update -> PersistContext.SetLinkedIds with and without a field checker), one and two operations per transaction, 2x2 and 2x3 entities, plus a link collection owned by a child store; reads through the collection and through the store's related-entity API; both directions and both counts are compared byte-for-byte with the model; SetLinks is checked for every current set over 4 ids and every request list up to length 3/4 including duplicates, unsorted input and a missing id.",
+            "All reachable link states (symmetric and ref-counted) are enumerated to closure with every operation issued from either side (collection API, and the entity-level route Update -> PersistContext.SetLinkedIds with and without a field checker), one and two operations per transaction, 2x2 and 2x3 entities, plus a link collection owned by a child store; reads through the collection (links, cursors, link counts from either side) and through the store's related-entity API; both directions and both counts are compared byte-for-byte with the model; SetLinks is checked for every current set over 4 ids and every request list up to length 3/4 including duplicates, unsorted input and a missing id.",
             "2x2 (2x3) entities, counts bounded by 2/3 (Increment above the bound is skipped on both sides), negative counts outside the property's domain.",
             "DESIGN.md §4 C05"),
     "C06": ("model_checking", E1,
